@@ -22,7 +22,7 @@
 (* armed when the replacement is a regular file): a directory replaced by a *)
 (* symlink then has its stale children deleted THROUGH the new link.        *)
 (***************************************************************************)
-EXTENDS Paths, TLC
+EXTENDS Paths, TLC, Json, IOUtils
 CONSTANTS SepInRmdir, RmdirOnlyForFile
 
 NameA == <<97>>
@@ -109,4 +109,24 @@ N4 == LET evs == Alg(dst, src) IN
       /\ \A i, j \in Del(evs) : evs[i].p = evs[j].p => i = j
 N6 == LET evs == Alg(dst, src) IN
       \A i, j \in DOMAIN evs : Under(evs[j].p, evs[i].p) /\ evs[i].k # "del" /\ evs[j].k # "del" => i < j
+
+\* ---- case generation for the sync driver (configuration _gen): one file per (old destination, source) pair with the
+\* changes the ALGORITHM model emits; the driver performs the transfer with the real Send / Receive and the monitor
+\* (SyncTrace, clause MODEL.diffMergeChangesDiffer) compares the notified (kind, path) pairs
+Chr(b) == CASE b = 97 -> "a" [] b = 98 -> "b" [] b = 45 -> "-" [] OTHER -> "?"
+RECURSIVE BytesText(_)
+BytesText(bs) == IF bs = <<>> THEN "" ELSE Chr(Head(bs)) \o BytesText(Tail(bs))
+PathText(p) == IF Len(p) = 1 THEN BytesText(p[1]) ELSE BytesText(p[1]) \o "/" \o BytesText(p[2])
+Order6 == << <<NameA>>, <<NameA, NameA>>, <<NameA, NameAB>>, <<NameAB>>, <<NameAB, NameA>>, <<NameAB, NameAB>> >>
+KindCode(k) == IF k = "-" THEN "0" ELSE k
+TreeCode(t) == KindCode(t[Order6[1]]) \o KindCode(t[Order6[2]]) \o KindCode(t[Order6[3]]) \o KindCode(t[Order6[4]]) \o KindCode(t[Order6[5]]) \o KindCode(t[Order6[6]])
+TreeEntries(t) == LET L == ListOf(t) IN [i \in DOMAIN L |-> [p |-> PathText(L[i].path), t |-> L[i].t]]
+GenCases ==
+  (phase = 1) =>
+     ndJsonSerialize(IOEnv.VERIF_GEN_DIR \o "/diffcase_" \o TreeCode(dst) \o "_" \o TreeCode(src) \o ".ndjson",
+        <<[name |-> TreeCode(dst) \o "_" \o TreeCode(src), dst |-> TreeEntries(dst), src |-> TreeEntries(src),
+           \* k: the kind the merge loop hands to DiskWriter; n: the kind DiskWriter NOTIFIES - a regular file is always
+           \* announced as "add" (processChange / requestAsyncFileData are called with ChangeKindAdd), also when it replaces something
+           evs |-> LET E == Alg(dst, src) IN [i \in DOMAIN E |-> [k |-> E[i].k, p |-> PathText(E[i].p),
+                                                                  n |-> IF E[i].k = "mod" /\ E[i].t \in {"f", "g"} THEN "add" ELSE E[i].k]]]>>)
 =============================================================================
